@@ -799,9 +799,25 @@ end
 /-- fuel that the rvalue family and the small loops never exhaust (see `Proofs/ParseTokRv.lean`) -/
 def rvFuel (st : St) : Nat := 6 * st.rest.length + 8
 
-/-- `self._rvalue(dest, code_gen)` as the statement routines call it -/
+/-- `self._code_gen`, swapped with the scratch generator -/
+def St.swapCode (st : St) : St := { st with code := st.inner, inner := st.code }
+
+/-- `saved = self._code_gen; self._code_gen = code_gen; try: return m() finally: … = saved` -/
+def withScratch (m : M Unit) : M Unit := fun st =>
+  match m st.swapCode with
+  | .ok a st' => .ok a st'.swapCode
+  | .fail st' => .fail st'.swapCode
+  | .raised k st' => .raised k st'.swapCode
+  | .oof => .oof
+
+/-- `self._rvalue(dest, code_gen)` as the statement routines call it.  When the loop parser hands
+in its scratch generator, `_rvalue` makes it the parser's own for the duration of the call, so that
+an expression in braces, a call in brackets and `not` are compiled into it as well (inside, the
+local `code_gen` — the parameter `cg` of `rvalue` — is always the parser's own generator). -/
 def rvalueTop (dest : Dest := .to result) (cg : CG := .main) : M Unit := fun st =>
-  rvalue (rvFuel st) dest cg st
+  match cg with
+  | .main => rvalue (rvFuel st) dest .main st
+  | .inner => withScratch (rvalue (rvFuel st) dest .main) st
 
 /-- `self._call_routine()` -/
 def callRoutine : M Unit := fun st =>
